@@ -181,6 +181,8 @@ def tobytes_term(ba):
         pat = ba.pattern()
         pat += '0' * (-len(pat) % 8)
         return K(bytes(int(pat[i:i + 8], 2) for i in range(0, len(pat), 8)))
+    if len(ba.segs) == 1 and ba.segs[0].kind == 'b' and ba.segs[0].val is not None:
+        return ba.segs[0].val          # the bits are exactly the bits of this byte string: its bytes are that byte string
     return Term('tobytes', K((len(ba) + 7) // 8), K(ba.desc()), BAref(ba.copy()))
 
 
